@@ -28,6 +28,12 @@ type ghostFS struct {
 	handles map[int]*ghostHandle // *os.File heap object -> handle
 	clock   uint64
 	temps   int
+	// crash points (zzverif.Crashable): the k-th file-system mutation inside the
+	// armed region does not happen; the operation is abandoned there
+	armed   bool
+	crashAt int
+	ops     int
+	crashed bool
 }
 
 type ghostHandle struct {
@@ -43,7 +49,8 @@ func (st *State) fs() *ghostFS {
 }
 
 func (g *ghostFS) clone() *ghostFS {
-	n := &ghostFS{files: map[string]*ghostFile{}, handles: map[int]*ghostHandle{}, clock: g.clock, temps: g.temps}
+	n := &ghostFS{files: map[string]*ghostFile{}, handles: map[int]*ghostHandle{}, clock: g.clock, temps: g.temps,
+		armed: g.armed, crashAt: g.crashAt, ops: g.ops, crashed: g.crashed}
 	for k, f := range g.files {
 		c := *f
 		c.records = append([]Value(nil), f.records...)
@@ -101,6 +108,48 @@ func (e *Exec) ghostHandleOf(st *State, v Value) *ghostHandle {
 	return h
 }
 
+// crashedFrame: the handler unwound the stack (a crash point fired); the
+// caller must not touch the frame it was executing.
+type crashedFrame struct{}
+
+// mutation is called by every mutating ghost operation BEFORE it takes
+// effect.  It reports true if the process "crashes" here: the frames down to
+// zzverif.Crashable are discarded without running deferred calls, every lock
+// is gone (memory is lost with the process), and execution continues in
+// Crashable after the call of the abandoned operation.
+func (e *Exec) mutation(st *State) bool {
+	g := st.fs()
+	if !g.armed {
+		return false
+	}
+	if g.ops != g.crashAt {
+		g.ops++
+		return false
+	}
+	idx := -1
+	for i := len(st.frames) - 1; i >= 0; i-- {
+		f := st.frames[i]
+		if f.fn != nil && f.fn.String() == vpkg+"Crashable" {
+			idx = i
+			break
+		}
+		if f.marker {
+			panic(e.abort("crash point inside a nested helper call"))
+		}
+	}
+	if idx < 0 {
+		panic(e.abort("crash point outside zzverif.Crashable"))
+	}
+	st.frames = st.frames[:idx+1]
+	st.frames[idx].ip++ // past the call of the abandoned operation
+	st.held = map[string]bool{}
+	st.heldNames = map[string]string{}
+	g.armed = false
+	g.crashed = true
+	e.res.noteOnce("crash points: the k-th file-system mutation (OpenFile/CreateTemp/Remove/Rename/Encode/WriteFile) inside Crashable does not happen and the operation is abandoned there (no deferred calls, all locks lost); a process crash, not a power failure: data written before the crash point is on disk")
+	return true
+}
+
 func ghostNote(e *Exec) {
 	e.res.noteOnce("ghost file system: os.Stat/Open/OpenFile/CreateTemp/Remove/Rename/MkdirAll, File.Stat/Close/Name and json Encoder.Encode / Decoder.Decode are models (records + (size,mtime) version, mtime moves by 1 ns per modification); natively the real file system")
 }
@@ -127,6 +176,9 @@ func init() {
 	})
 	add("os.OpenFile", func(e *Exec, st *State, fv FuncV, a []Value, cc *ssa.CallCommon) Value {
 		ghostNote(e)
+		if e.mutation(st) {
+			return crashedFrame{}
+		}
 		name := e.cstr(a[0])
 		g := st.fs()
 		if g.files[name] == nil {
@@ -138,6 +190,9 @@ func init() {
 	})
 	add("os.CreateTemp", func(e *Exec, st *State, fv FuncV, a []Value, cc *ssa.CallCommon) Value {
 		ghostNote(e)
+		if e.mutation(st) {
+			return crashedFrame{}
+		}
 		g := st.fs()
 		g.temps++
 		name := fmt.Sprintf("%s/%s%d", e.cstr(a[0]), e.cstr(a[1]), g.temps)
@@ -153,6 +208,9 @@ func init() {
 	add("os.RemoveAll", func(e *Exec, st *State, fv FuncV, a []Value, cc *ssa.CallCommon) Value { return nilErr() })
 	add("os.Remove", func(e *Exec, st *State, fv FuncV, a []Value, cc *ssa.CallCommon) Value {
 		ghostNote(e)
+		if e.mutation(st) {
+			return crashedFrame{}
+		}
 		name := e.cstr(a[0])
 		g := st.fs()
 		if g.files[name] == nil {
@@ -163,6 +221,9 @@ func init() {
 	})
 	add("os.Rename", func(e *Exec, st *State, fv FuncV, a []Value, cc *ssa.CallCommon) Value {
 		ghostNote(e)
+		if e.mutation(st) {
+			return crashedFrame{}
+		}
 		g := st.fs()
 		from, to := e.cstr(a[0]), e.cstr(a[1])
 		f := g.files[from]
@@ -187,6 +248,9 @@ func init() {
 	})
 	add("(*encoding/json.Encoder).Encode", func(e *Exec, st *State, fv FuncV, a []Value, cc *ssa.CallCommon) Value {
 		ghostNote(e)
+		if e.mutation(st) {
+			return crashedFrame{}
+		}
 		enc := e.load(st, a[0].(Ptr)).(*StructV)
 		w := enc.f[0].(IfaceV)
 		h := e.ghostHandleOf(st, w.v)
